@@ -51,23 +51,45 @@ def strategy(tier):
     return st.tuples(st.one_of(st_program(cfg(tier, True)), st_program(cfg(tier, False))), st.integers(1, 3))
 
 
-def occurrences(prog, leaves, rels):
-    """{leaf index: [occurrences below an eager op, occurrences not below one]} counting paths.
+def occurrences(prog, leaves, rels, env):
+    """{leaf index: [below an eager op, not below one, 'either']} counting paths.
 
     An eager program node counts only if the factory call really added a node (materializing a leaf or a
-    materialization is documented to return the relation itself).
+    materialization is documented to return the relation itself).  A deduplication applied directly to a leaf whose
+    payload already is a RowMapping may hand that payload back unchanged (documented RowMapping.to_mapping short-cut)
+    or build a new mapping, depending on key order: such occurrences are 'either' and get the union of both bounds.
     """
+    from lsst.daf.relation import iteration
+
     out = {}
 
-    def rec(node, eager):
+    def own_payload(node):
+        """The leaf index whose *own payload object* executing `node` may return, else None.
+        materialized() returns a MaterializedRowIterable unchanged; to_mapping returns a RowMapping with the same key
+        unchanged; transfers between iteration engines and elided markers do not copy."""
         if node[0] == "leaf":
-            out.setdefault(node[1], [0, 0])[0 if eager else 1] += 1
-            return
-        e = eager or (node[0] in EAGER and rels[id(node)] is not rels[id(node[1])])
-        for c in children(node):
-            rec(c, e)
+            return node[1] if env.payloads[node[1]] is not None else None
+        if node[0] in ("xfer", "mat"):
+            return own_payload(node[1])
+        if node[0] == "dedup":
+            i = own_payload(node[1])
+            return i if i is not None and isinstance(env.payloads[i], iteration.RowMapping) else None
+        return None
 
-    rec(prog, False)
+    def passes_through(node, kind):
+        return own_payload((kind, node)) is not None
+
+    def rec(node, mode):
+        if node[0] == "leaf":
+            out.setdefault(node[1], [0, 0, 0])[mode] += 1
+            return
+        m = mode
+        if mode == 1 and node[0] in EAGER and rels[id(node)] is not rels[id(node[1])]:
+            m = 2 if (node[0] in ("dedup", "mat") and passes_through(node[1], node[0])) else 0
+        for c in children(node):
+            rec(c, m)
+
+    rec(prog, 1)
     return out
 
 
@@ -81,9 +103,9 @@ def run_case(case, stats):
         except BuildError as b:
             raise Violation("build-raised", f"{fmt(b.node, leaves)}: {type(b.exc).__name__}: {b.exc}", exc=b.exc)
         root = rels[id(prog)]
-        occ = occurrences(prog, leaves, rels)
+        occ = occurrences(prog, leaves, rels, env)
         ks = set(kinds(prog))
-        lazy_only = all(v[0] == 0 for v in occ.values())
+        lazy_only = all(v[0] == 0 and v[2] == 0 for v in occ.values())
         stats.c["class:lazy-only" if lazy_only else "class:mixed"] += 1
         ctx = f"program {fmt(prog, leaves)}; tree {root}"
 
@@ -98,10 +120,10 @@ def run_case(case, stats):
         for i, n in after_exec.items():
             if lazy_only and n != 0:
                 raise Violation("not-lazy", f"execute() started {n} iteration(s) of leaf {leaves[i][0]} in a lazy-only tree; {ctx}")
-            if n > occ[i][0]:
+            if n > occ[i][0] + occ[i][2]:
                 raise Violation(
                     "eager-multi-pass",
-                    f"execute() started {n} iterations of leaf {leaves[i][0]} but only {occ[i][0]} occurrence(s) sit below sort/dedup/materialize; {ctx}",
+                    f"execute() started {n} iterations of leaf {leaves[i][0]} but only {occ[i][0] + occ[i][2]} occurrence(s) sit below sort/dedup/materialize; {ctx}",
                 )
         for k in range(1, iters + 1):
             try:
@@ -112,13 +134,13 @@ def run_case(case, stats):
                 raise Violation("rows-differ", f"iteration #{k}: expected {show_rows(expected)} got {show_rows(got)}; {ctx}")
             now = counters()
             for i, n in now.items():
-                bound = occ[i][0] + k * occ[i][1]
+                bound = occ[i][0] + occ[i][2] + k * (occ[i][1] + occ[i][2])
                 if n > bound:
                     raise Violation(
                         "multi-pass",
-                        f"after {k} full iteration(s) leaf {leaves[i][0]} was started {n} times; bound {occ[i][0]} (eager) + {k} x {occ[i][1]} (lazy occurrences); {ctx}",
+                        f"after {k} full iteration(s) leaf {leaves[i][0]} was started {n} times; bound {bound} = eager {occ[i][0]}, lazy {occ[i][1]}, either {occ[i][2]} occurrence(s); {ctx}",
                     )
-                if occ[i][1] == 0 and n != after_exec[i]:
+                if occ[i][1] == 0 and occ[i][2] == 0 and n != after_exec[i]:
                     raise Violation(
                         "eager-reconsumed",
                         f"leaf {leaves[i][0]} sits only below eager operations but its counter grew from {after_exec[i]} to {n} during iteration #{k}; {ctx}",
